@@ -407,7 +407,7 @@ KINDS = ["fetch0", "fetch2", "offsets", "metadata", "coordinator", "commit", "of
 
 
 def replay(v):
-    if v["signature"].startswith("C04:neg"):
+    if v.get("harness") or v["signature"].startswith("C04:neg"):
         from checks import C04_neg
         return C04_neg.replay(v)
     u = v["input"]["unit"]
